@@ -192,6 +192,21 @@ func (fc *FnCtx) callByContract(instr ssa.Instruction, name string, con *Contrac
 		g := fc.transBool(env, c)
 		fc.oblige(st, "call-pre", fmt.Sprintf("%s#call-pre#%s.%d@%d", fc.fnName(), name, j, site), g, fc.eng.pos(instr.Pos()), "requires of "+name+": "+c.Text)
 	}
+	// termination of recursion (lemmas: induction must be well-founded; spec functions: definition must be)
+	if fn != nil && fn == fc.fn {
+		if con.Decreases == nil {
+			if con.Lemma || con.Pure {
+				fc.unsup("recursive %s without a decreases clause", name)
+			}
+		} else {
+			eenv := fc.entryEnv(fc.entry)
+			before, _ := fc.transExpr(eenv, con.Decreases.Expr)
+			after, _ := fc.transExpr(env, con.Decreases.Expr)
+			bt, at := before.(*Term), after.(*Term)
+			fc.oblige(st, "decreases", fmt.Sprintf("%s#decreases#rec@%d", fc.fnName(), site), fc.tb.And(fc.tb.Lt(at, bt), fc.tb.Ge(bt, fc.tb.Int(0))),
+				fc.eng.pos(instr.Pos()), "recursive call decreases "+con.Decreases.Text)
+		}
+	}
 	// frame
 	if con.HasAssigns {
 		for _, a := range con.Assigns {
